@@ -103,9 +103,12 @@ impl Run {
         let mut known_hit = vec![];
         let dir = format!("{}/replays/{}", verif_dir(), self.prop);
         let mut lines = vec![];
+        let mut known_lines: BTreeMap<String, (usize, Vec<String>)> = BTreeMap::new();
         for (class, vs) in by_class.iter() {
             if let Some(k) = known.iter().find(|k| k.prop == self.prop && class_matches(&k.class, class)) {
-                lines.push(format!("KNOWN-FINDING: property={} {} [class {}; {} instance(s) this run]", self.prop, k.note, class, vs.len()));
+                let e = known_lines.entry(k.note.clone()).or_insert((0, vec![]));
+                e.0 += vs.len();
+                e.1.push(class.clone());
                 known_hit.push(json!({"class": class, "instances": vs.len()}));
                 continue;
             }
@@ -128,6 +131,9 @@ impl Run {
             lines.push(format!("VIOLATION property={} replay={}", self.prop, path));
             lines.push(format!("  class: {}", class));
             lines.push(format!("  detail: {}", v.detail));
+        }
+        for (note, (n, classes)) in known_lines.iter() {
+            lines.insert(0, format!("KNOWN-FINDING: property={} {} [{} instance(s) this run in {} class(es)]", self.prop, note, n, classes.len()));
         }
         let wall = self.start.elapsed().as_secs_f64();
         let mut cov = coverage;
